@@ -78,6 +78,41 @@ Theorem C18_extern_not_mangled :
 Proof. exact extern_not_mangled. Qed.
 Print Assumptions C18_extern_not_mangled.
 
+(* Generic extern functions (declared once from the generic declaration; T only inside a Referenz or a list):
+   the declared IR signature agrees with the published one (ddpgenericlist*, ddpgenericlistref, ddpgenericref) for
+   every arity - exactly on parameters without T, up to untyped pointers on the others - and a declaration
+   without type parameters is the non-generic case. *)
+Theorem C18_generic_sig_lowering_compat : forall s : gsignature,
+  ab_name (abi_of_ir (lower_gsig s)) = ab_name (abi_of_c (c_gsig s)) /\
+  compat (ab_ret (abi_of_ir (lower_gsig s))) (ab_ret (abi_of_c (c_gsig s))) /\
+  Forall2 compat (ab_params (abi_of_ir (lower_gsig s))) (ab_params (abi_of_c (c_gsig s))).
+Proof. exact generic_sig_lowering_compat. Qed.
+Print Assumptions C18_generic_sig_lowering_compat.
+
+Theorem C18_generic_declaration_generalises : forall s : signature,
+  lower_gsig (gsig_of s) = lower_sig s /\ c_gsig (gsig_of s) = c_sig s.
+Proof. exact gsig_of_concrete. Qed.
+Print Assumptions C18_generic_declaration_generalises.
+
+(* The call of a generic extern function: the by-value list argument that was passed as ddpgenericlist* is cast
+   back and released from exactly its own slot (index shifted behind an out-pointer), and the plan ends in the same
+   ownership state as the plain plan of C18_extern_call_ownership: every value made for the call released exactly
+   once, nothing else, result owned. *)
+Theorem C18_generic_extern_call_ownership : forall (s : signature) (gs : list bool) (ks : list argkind),
+  length ks = length (s_params s) ->
+  exists st,
+    run (init_state (temp_indices 0 (s_params s) ks)) (call_plan_g s gs ks) = Some st /\
+    run (init_state (temp_indices 0 (s_params s) ks)) (call_plan s ks) = Some st /\
+    st_slots st = [] /\ NoDup (st_freed st) /\ st_temps st = [] /\
+    st_result_owned st = negb (ret_is_prim (s_ret s)) /\
+    (forall k, In (FreeArgCast k) (call_plan_g s gs ks) ->
+       exists i p, nth_error (s_params s) i = Some p /\ p_ref p = false /\ is_list (p_ty p) = true /\
+                   nth_error gs i = Some true /\
+                   k = i + (if ret_is_prim (s_ret s) then 0 else 1) /\
+                   nth_error (st_args st) k = Some (VSlot i)).
+Proof. exact generic_extern_call_ownership. Qed.
+Print Assumptions C18_generic_extern_call_ownership.
+
 (* ---- non-vacuity ------------------------------------------------------------------------------ *)
 Definition ex_paar : ty := TStruct [TPrim PZahl; TText].
 Definition ex_sig : signature :=
@@ -126,3 +161,27 @@ Example C18_ex_names :
   mangled_name nat h {| d_name := [102]%N; d_extern := false; d_extern_visible := false; d_generic_suffix := None |} 1
     = [102; 95; 109; 111; 100; 95; 1]%N.
 Proof. split; reflexivity. Qed.
+
+(* generic: "g mit l vom Typ T Liste, r vom Typ T Listen Referenz, e vom Typ T Referenz, gibt einen Text zurück" *)
+Definition ex_gsig : gsignature :=
+  {| g_name := [103]%N; g_params := [GConcrete {| p_ty := TPrim PZahl; p_ref := false |}; GListVal; GRef true; GRef false];
+     g_ret := GRetConcrete (Some TText) |}.
+Example C18_ex_generic_lowering :
+  is_params (lower_gsig ex_gsig) =
+    [LPtr (LStruct [LPtr LI8; LI64]); LI64; LPtr (LStruct [LPtr LI8; LI64; LI64]); LPtr LI8; LPtr LI8] /\
+  cs_params (c_gsig ex_gsig) =
+    [CPtr (CStruct [CPtr CChar; CInt64]); CInt64; CPtr (CStruct [CPtr CVoid; CInt64; CInt64]);
+     CPtr (CStruct [CPtr CVoid; CInt64; CInt64]); CPtr CVoid].
+Proof. split; reflexivity. Qed.
+
+(* instantiated with T = Zahl, Text result: the cast-and-release hits args[2+1]; the un-shifted index is rejected *)
+Definition ex_inst : signature :=
+  {| s_name := [103]%N;
+     s_params := [ {| p_ty := TPrim PZahl; p_ref := false |}; {| p_ty := TList (TPrim PZahl); p_ref := false |};
+                   {| p_ty := TList (TPrim PZahl); p_ref := true |}; {| p_ty := TPrim PZahl; p_ref := true |} ];
+     s_ret := Some TText |}.
+Example C18_ex_generic_plan :
+  call_plan_g ex_inst [false; true; true; true] [ArgVar; ArgVar; ArgVar; ArgVar] =
+  [AllocRet; PassValue 0; Copy 1; PassRef 2; PassRef 3; Call; ResultTemp; FreeArgCast 2] /\
+  run (init_state []) [AllocRet; PassValue 0; Copy 1; PassRef 2; PassRef 3; Call; ResultTemp; FreeArgCast 1] = None.
+Proof. split; vm_compute; reflexivity. Qed.
